@@ -14,6 +14,14 @@ R18.4  __init__: the registry write is dominated by _init_from_scratch (which
        filters on every path to its return) and carries its result; nothing
        else filters or rebuilds the list; the registry read path does not
        filter again; both paths hand the same variable to _set_info
+R18.5  _parse_nodefile: one tuple per distinct host name (keyed collection)
+R18.6  the loops marking blocked cores / GPUs DOWN range over the complete
+       rm_info.node_list (iteration domain: no slice / filter / early exit /
+       per-node skip), after the RM built the list, and over the configured
+       blocked list of the same kind
+R18.7  an RM which decides membership of node-file entries by their slot
+       count does not hand `cpn` to _parse_nodefile (cpn overrides the count
+       of every host: the test could not tell pseudo nodes from compute nodes)
 """
 
 import ast
@@ -1005,6 +1013,1016 @@ def r18_5(prog, rep, table, rid='R18.5'):
 
 
 # ------------------------------------------------------------------------------
+# R18.6   blocked cores / GPUs are marked on every node of the complete list
+#
+FULL_ITER  = {'list', 'tuple', 'sorted', 'reversed', 'iter'}
+NARROWING  = {'filter', 'islice', 'itertools.islice', 'takewhile',
+              'itertools.takewhile', 'dropwhile', 'itertools.dropwhile',
+              'compress', 'itertools.compress', 'filterfalse',
+              'itertools.filterfalse'}
+
+
+def _empty_list(v):
+    return isinstance(v, ast.List) and not v.elts or \
+        isinstance(v, ast.Call) and call_name(v) == 'list' and \
+        not v.args and not v.keywords
+
+
+def _full_slice(sl):
+    """[:] [0:] [::1] [::-1]: every element"""
+    def const(x, vals):
+        return x is None or isinstance(x, ast.Constant) and x.value in vals
+    if not const(sl.step, (None, 1, -1)):
+        return False
+    if isinstance(sl.step, ast.Constant) and sl.step.value == -1:
+        return sl.lower is None and sl.upper is None
+    return const(sl.lower, (None, 0)) and const(sl.upper, (None,))
+
+
+def _is_static(f):
+    return any(isinstance(d, ast.Name) and d.id == 'staticmethod'
+               for d in f.node.decorator_list)
+
+
+def bind_args(callee, call):
+    """{parameter name of callee: argument expression of call}"""
+    a = callee.node.args
+    pos = [x.arg for x in a.posonlyargs + a.args]
+    if callee.cls is not None and not _is_static(callee) and pos and \
+            isinstance(call.func, ast.Attribute):
+        pos = pos[1:]                              # self / cls
+    out = {}
+    for p, v in zip(pos, call.args):
+        if isinstance(v, ast.Starred):
+            break
+        out[p] = v
+    names = set(pos) | {x.arg for x in a.kwonlyargs}
+    for k in call.keywords:
+        if k.arg in names:
+            out[k.arg] = k.value
+    return out
+
+
+class FnCtx:
+    """a function in which the marking may live: _init_from_scratch itself
+    (caller is None) or a method it hands the RMInfo to"""
+
+    def __init__(self, f, caller=None, call=None, callnode=None):
+        self.f = f
+        self.g = cfg_of(f)
+        self.smap = I.stmt_node_map(self.g)
+        self.caller = caller
+        self.call = call
+        self.callnode = callnode
+        self.args = bind_args(f, call) if call is not None else {}
+
+    def origin(self, expr, at, depth=0):
+        """follow plain names through their (single) reaching definition and,
+        for a parameter of a helper, through the argument of the call in the
+        caller; -> (ctx, expr, at) of the first expression that is not such a
+        name, or None when the chain cannot be followed"""
+        ctx = self
+        while isinstance(expr, ast.Name) and depth < 12:
+            depth += 1
+            from ..flow import reaching_defs
+            defs = reaching_defs(ctx.g, expr.id, at)
+            if len(defs) == 1 and defs[0][1] is not None:
+                at, expr = defs[0][0].id, defs[0][1]
+            elif not defs and expr.id in ctx.args and ctx.caller is not None:
+                expr, at = ctx.args[expr.id], ctx.callnode.id
+                ctx = ctx.caller
+            else:
+                return None
+        return ctx, expr, at
+
+
+class Domain:
+    """which part of <rm_info>.node_list an expression ranges over:
+    ('whole', root name) | ('partial', why); raises Unrecognised"""
+
+    def __init__(self, ctx):
+        self.ctx = ctx
+        self.f, self.g, self.smap = ctx.f, ctx.g, ctx.smap
+        self.busy = set()
+
+    def classify(self, e, at):
+        from ..flow import reaching_defs
+        if _is_node_list(e):
+            if isinstance(e.value, ast.Name):
+                return ('whole', e.value.id)
+            raise Unrecognised('node list of `%s`' % short(e.value))
+        if isinstance(e, ast.Name):
+            key = (e.id, at)
+            if key in self.busy:
+                raise Unrecognised('recursive definition of %s' % e.id)
+            self.busy.add(key)
+            try:
+                defs = reaching_defs(self.g, e.id, at)
+                if not defs:
+                    raise Unrecognised('`%s` is not a local of %s'
+                                       % (e.id, self.f.qual))
+                res = []
+                for dn, v in defs:
+                    if v is None:
+                        raise Unrecognised('`%s` bound by `%s`'
+                                           % (e.id, short(dn.ast, 50)))
+                    if _empty_list(v):
+                        res.append(self.grown(e.id, dn))
+                    else:
+                        res.append(self.classify(v, dn.id))
+                return self.join(res)
+            finally:
+                self.busy.discard(key)
+        if isinstance(e, ast.Subscript) and isinstance(e.slice, ast.Slice):
+            inner = self.classify(e.value, at)
+            if inner[0] == 'partial' or _full_slice(e.slice):
+                return inner
+            return ('partial', 'the slice `%s`' % short(e, 70))
+        if isinstance(e, ast.Call):
+            cn = call_name(e)
+            if cn in FULL_ITER and e.args:
+                return self.classify(e.args[0], at)
+            if cn.endswith('.copy') and not e.args:
+                return self.classify(e.func.value, at)
+            if cn in ('copy.copy', 'copy.deepcopy') and e.args:
+                return self.classify(e.args[0], at)
+            if cn in NARROWING and e.args:
+                seq = e.args[0] if cn.endswith('islice') else e.args[-1]
+                inner = self.classify(seq, at)
+                if inner[0] == 'partial':
+                    return inner
+                return ('partial', '`%s`' % short(e, 70))
+            raise Unrecognised('`%s`' % short(e, 70))
+        if isinstance(e, (ast.ListComp, ast.GeneratorExp)):
+            if len(e.generators) != 1:
+                raise Unrecognised('`%s`' % short(e, 70))
+            gen = e.generators[0]
+            if not (isinstance(gen.target, ast.Name) and
+                    isinstance(e.elt, ast.Name) and
+                    e.elt.id == gen.target.id):
+                raise Unrecognised('`%s`' % short(e, 70))
+            inner = self.classify(gen.iter, at)
+            if inner[0] == 'partial' or not gen.ifs:
+                return inner
+            if any(gen.target.id in names_in_expr(c) for c in gen.ifs):
+                return ('partial', 'the filter `%s`'
+                        % ' and '.join(short(c, 50) for c in gen.ifs))
+            raise Unrecognised('`%s`' % short(e, 70))
+        raise Unrecognised('`%s`' % short(e, 70))
+
+    @staticmethod
+    def join(res):
+        for r in res:
+            if r[0] == 'partial':
+                return r
+        roots = {r[1] for r in res}
+        if len(roots) != 1:
+            raise Unrecognised('several node lists: %s' % sorted(roots))
+        return res[0]
+
+    def grown(self, name, defnode):
+        """a list started empty and filled element by element in a loop"""
+        res = []
+        for c in calls_in(self.f.node):
+            if not isinstance(c.func, ast.Attribute) or \
+                    not isinstance(c.func.value, ast.Name) or \
+                    c.func.value.id != name or id(c) not in self.smap:
+                continue
+            an = self.smap[id(c)]
+            if c.func.attr == 'extend' and c.args:
+                res.append(self.classify(c.args[0], an.id))
+                continue
+            if c.func.attr != 'append' or not c.args:
+                if c.func.attr in ('insert', 'remove', 'pop', 'clear'):
+                    raise Unrecognised('`%s`' % short(c, 60))
+                continue
+            x = c.args[0]
+            head = None
+            for h in reversed(an.loops):
+                hn = self.g.nodes[h]
+                if hn.kind == 'for' and isinstance(x, ast.Name) and \
+                        isinstance(hn.ast.target, ast.Name) and \
+                        hn.ast.target.id == x.id:
+                    head = hn
+                    break
+            if head is None:
+                raise Unrecognised('`%s` does not append the loop element'
+                                   % short(c, 60))
+            inner = self.classify(head.ast.iter, head.id)
+            if inner[0] == 'partial':
+                res.append(inner)
+                continue
+            why = per_element_skip(self.g, head.id, an, {x.id})
+            if why:
+                res.append(('partial', 'the loop `%s` which %s'
+                            % (short(head.ast.target) + ' in ' +
+                               short(head.ast.iter, 50), why)))
+            else:
+                res.append(inner)
+        for n in walk(self.f.node):
+            if isinstance(n, ast.AugAssign) and \
+                    isinstance(n.target, ast.Name) and n.target.id == name \
+                    and id(n) in self.smap:
+                res.append(self.classify(n.value, self.smap[id(n)].id))
+        if not res:
+            raise Unrecognised('list `%s` is never filled' % name)
+        return self.join(res)
+
+
+def names_in_expr(e):
+    return {n.id for n in walk(e, nested=True) if isinstance(n, ast.Name)}
+
+
+def per_element_skip(g, head, site, elt_names):
+    """does an iteration of the loop `head` exist which leaves `site` (a cfg
+    node of the body) out for a reason that depends on the element alone, or
+    does the loop end before its sequence does?  -> description | None"""
+    from ..flow import guards
+    body = g.loop_body[head]
+    # names computed from the element inside the body (one step)
+    derived = set(elt_names)
+    for nid in body:
+        n = g.nodes[nid]
+        if n.kind == 'stmt' and isinstance(n.ast, ast.Assign) and \
+                names_in_expr(n.ast.value) & set(elt_names):
+            for t in n.ast.targets:
+                derived |= set(stores_of(t))
+    # names bound by loops nested between head and the site: a test on them
+    # concerns the pair (element, inner item), not the element
+    inner = set()
+    for h in site.loops:
+        if h != head and h in body and g.nodes[h].kind == 'for':
+            inner |= set(stores_of(g.nodes[h].ast.target))
+    derived -= inner
+    # (a) the loop is left early
+    for nid in body:
+        for e in g.succ[nid]:
+            if e.label == 'exc' or e.dst in body or e.dst == head:
+                continue
+            if g.exit.id in g.reachable(e.dst):
+                return 'can end before the last element (`%s`)' \
+                    % _leave_text(g, nid)
+    # (b) a test on the element decides whether the site is reached
+    start = loop_start(g, head)
+    for tid, lab in guards(g, site.id, start=start, within=body):
+        t = g.nodes[tid]
+        names = names_in_expr(t.ast)
+        if not names & derived or names & inner:
+            continue
+        other = [e.dst for e in g.succ[tid]
+                 if e.label in 'TF' and e.label != lab]
+        if other and (g.exit.id in g.reachable(other)):
+            return 'skips elements for which `%s` is %s' \
+                % (short(t.ast, 60), 'false' if lab == 'T' else 'true')
+    return None
+
+
+def loop_start(g, head):
+    for e in g.succ[head]:
+        if e.enter == head:
+            return e.dst
+    raise AnalysisError('loop without body')
+
+
+def _leave_text(g, nid):
+    n = g.nodes[nid]
+    return short(n.ast, 40) if n.ast is not None else n.kind
+
+
+def stores_of(t):
+    from ..model import stores_in_target
+    return stores_in_target(t)
+
+
+def scratch_contexts(prog, rep):
+    """-> (rm var, [FnCtx]): ResourceManager._init_from_scratch and the
+    methods it hands its RMInfo to (init_from_scratch of the RM excluded)"""
+    s = prog.method(RM[0], RM[1], '_init_from_scratch')
+    rep.saw(s)
+    top = FnCtx(s)
+    fargs = {c.args[0].id for c in calls_in(s.node)
+             if call_name(c) == 'self._filter_nodes' and c.args and
+             isinstance(c.args[0], ast.Name)}
+    if len(fargs) != 1:
+        raise AnalysisError('UNRECOGNISED-IDIOM %s: the RMInfo handed to '
+                            'self._filter_nodes is not one plain name (%s)'
+                            % (s.where, sorted(fargs)))
+    var = fargs.pop()
+    out = [top]
+    for c in calls_in(s.node):
+        if not any(isinstance(a, ast.Name) and a.id == var
+                   for a in list(c.args) + [k.value for k in c.keywords]):
+            continue
+        if call_name(c).endswith('.init_from_scratch') or id(c) not in top.smap:
+            continue
+        callee = prog.resolve_call(s, c)
+        if callee is None or callee is s:
+            continue
+        rep.saw(callee)
+        out.append(FnCtx(callee, top, c, top.smap[id(c)]))
+    return var, out
+
+
+def r18_6(prog, rep, rid='R18.6'):
+    rep.rule(rid, 'blocked cores and GPUs are marked DOWN on every node of the '
+             'complete rm_info.node_list: the marking loop ranges over the '
+             'whole list (no slice, filter or early exit narrower than what '
+             '_filter_nodes may keep) and over the configured blocked list of '
+             'the same kind', minimum=4)
+    free, busy, down = c01.consts(prog)
+    var, ctxs = scratch_contexts(prog, rep)
+    top = ctxs[0]
+    init_calls = [top.smap[id(c)].id for c in calls_in(top.f.node)
+                  if call_name(c) == 'self.init_from_scratch' and
+                  id(c) in top.smap]
+    if not init_calls:
+        raise AnalysisError('UNRECOGNISED-IDIOM %s: no call of '
+                            'self.init_from_scratch' % top.f.where)
+    hist = ('Slurm without cores_per_node in the config (requested_nodes is '
+            '0 until it is derived from requested_cores) or a pilot with '
+            'backup_nodes=1 whose second node fails the ssh check: '
+            '_filter_nodes keeps a node the marking did not visit, its '
+            'blocked cores/GPUs are offered FREE')
+
+    for kind, what in (('cores', 'core'), ('gpus', 'GPU')):
+        key = 'blocked_' + kind
+        sites, other = [], []
+        for ctx in ctxs:
+            f = ctx.f
+            for k, target, stmt in I.stores(f.node):
+                if "['%s']" % kind not in unparse(target) and not (
+                        isinstance(target, ast.Subscript) and
+                        isinstance(target.value, ast.Name)):
+                    continue
+                vec = target.value if isinstance(target, ast.Subscript) \
+                    else None
+                if isinstance(vec, ast.Name):
+                    a = _local_alias(f, vec.id)
+                    vec = a if a is not None else vec
+                shaped = k == 'assign' and isinstance(vec, ast.Subscript) and \
+                    isinstance(vec.slice, ast.Constant) and \
+                    vec.slice.value == kind and id(stmt) in ctx.smap
+                if shaped:
+                    sites.append((ctx, target, vec.value, stmt))
+                elif "['%s']" % kind in unparse(target):
+                    other.append((ctx, stmt))
+        if not sites:
+            if other:
+                raise AnalysisError('UNRECOGNISED-IDIOM %s: the %s vectors '
+                                    'are written by `%s`, not by '
+                                    "<node>['%s'][<idx>] = rpc.DOWN"
+                                    % (other[0][0].f.where, what,
+                                       short(other[0][1], 60), kind))
+            deep = _deep_writers(prog, top.f, kind)
+            if deep is not None:
+                raise AnalysisError('UNRECOGNISED-IDIOM %s: the %s vectors are '
+                                    'written in %s, which is not handed the '
+                                    'RMInfo by %s' % (top.f.where, what,
+                                                      deep.where, top.f.qual))
+            rep.bad(rid, top.f, 'mark:%s' % kind, 'neither %s nor a method it '
+                    "hands the RMInfo to writes into the node['%s'] vectors: "
+                    'the %ss listed in system_architecture.%s stay FREE on '
+                    'every offered node' % (top.f.qual, kind, what, key),
+                    top.f.loc(), history='platform config with %s=[0]: index '
+                    '0 of every node is handed to the first task' % key)
+            continue
+        marked = False
+        for ctx, target, nodex, stmt in sites:
+            f, g = ctx.f, ctx.g
+            val = prog.fold(f.module, stmt.value, f.cls)
+            if val is UNKNOWN:
+                raise AnalysisError('UNRECOGNISED-IDIOM %s: value of `%s`'
+                                    % (f.where, short(stmt, 60)))
+            if not (val == down and type(val) == type(down)):
+                if not (val == free and type(val) == type(free)):
+                    continue
+                rep.bad(rid, f, stmt, '%s writes rpc.FREE (`%s`) where the '
+                        'blocked %ss are to be marked unusable'
+                        % (f.qual, short(stmt, 60), what), f.loc(stmt),
+                        history='platform config with %s=[0]' % key)
+            marked = True
+            sn = ctx.smap[id(stmt)]
+            dom = Domain(ctx)
+            try:
+                head, res = node_domain(ctx, dom, sn, nodex)
+                skip = None
+                if res[0] == 'whole':
+                    skip = per_element_skip(g, head.id, sn, elt_names(
+                        head, nodex))
+            except Unrecognised as e:
+                raise AnalysisError('UNRECOGNISED-IDIOM %s: cannot tell which '
+                                    'nodes `%s` visits (%s)'
+                                    % (f.where, short(stmt, 50), e))
+            if res[0] == 'whole':
+                o = ctx.origin(ast.Name(id=res[1], ctx=ast.Load()), head.id)
+                root = o[1] if o is not None else None
+                if not (res[1] == var and ctx is top or
+                        isinstance(root, ast.Name) and root.id == var and
+                        o[0] is top or
+                        isinstance(root, ast.Call) and o[0] is top and
+                        call_name(root) == 'self.init_from_scratch'):
+                    raise AnalysisError('UNRECOGNISED-IDIOM %s: `%s.node_list`'
+                                        ' is not the list of the RMInfo `%s` '
+                                        'which is filtered and returned'
+                                        % (f.where, res[1], var))
+            whole = res[0] == 'whole' and not skip
+            why = res[1] if res[0] == 'partial' else \
+                'the loop over it %s' % skip if skip else ''
+            rep.check(whole, rid, f, 'blocked %ss: `%s` visits every node of '
+                      '%s.node_list' % (what, short(stmt, 40), var),
+                      construct='domain:%s' % kind,
+                      message='%s marks the blocked %ss (`%s`) only on the '
+                      'nodes selected by %s, not on the complete '
+                      'rm_info.node_list.  _filter_nodes decides later which '
+                      'nodes are offered (it keeps any reachable node when '
+                      'backup nodes exist, and requested_nodes may still be 0 '
+                      'here): a node outside of that selection is offered '
+                      'with its blocked %ss FREE'
+                      % (f.qual, what, short(stmt, 50), why, what),
+                      loc=f.loc(head.ast), history=hist)
+            # the marking happens once the RM has built the list
+            cn = sn if ctx is top else ctx.callnode
+            after = must_pass(top.g, top.g.entry.id, cn.id, init_calls)
+            rep.check(after, rid, f, 'blocked %ss are marked after '
+                      'self.init_from_scratch() built the list' % what,
+                      construct='order:%s' % kind,
+                      message='%s marks the blocked %ss on a path which has '
+                      'not yet run self.init_from_scratch(): the node list is '
+                      'still empty, nothing is marked' % (f.qual, what),
+                      loc=f.loc(stmt), history='any platform with %s' % key)
+            # the index ranges over the configured list of the same kind
+            bad = index_domain(ctx, sn, target.slice, key)
+            if bad:
+                rep.bad(rid, f, 'index:%s' % kind, '%s marks the %ss at the '
+                        'indices of %s, not of the complete configured %s: '
+                        'blocked %ss stay FREE' % (f.qual, what, bad, key,
+                                                   what), f.loc(stmt),
+                        history='platform config with blocked_cores=[0, 1] '
+                        'and blocked_gpus=[3]')
+        if not marked:
+            raise AnalysisError('UNRECOGNISED-IDIOM %s: no store of rpc.DOWN '
+                                "into node['%s']" % (top.f.where, kind))
+
+
+def _deep_writers(prog, s, kind, depth=3):
+    """a function reachable from s through resolvable calls (the RM's own
+    init_from_scratch excluded) which writes into a ['<kind>'] vector"""
+    seen, todo = {s.where}, [(s, 0)]
+    while todo:
+        f, d = todo.pop()
+        if f is not s:
+            for k, target, stmt in I.stores(f.node, nested=True):
+                if "['%s']" % kind in unparse(target):
+                    return f
+        if d >= depth:
+            continue
+        for c in calls_in(f.node, nested=True):
+            if call_name(c).endswith('.init_from_scratch'):
+                continue
+            try:
+                callee = prog.resolve_call(f, c)
+            except AnalysisError:
+                callee = None
+            if callee is not None and callee.where not in seen:
+                seen.add(callee.where)
+                todo.append((callee, d + 1))
+    return None
+
+
+def elt_names(head, nodex):
+    """names which stand for the node (or its position) in the loop `head`"""
+    out = set(stores_of(head.ast.target))
+    if isinstance(nodex, ast.Name):
+        out.add(nodex.id)
+    return out
+
+
+def node_domain(ctx, dom, sn, nodex):
+    """the loop which makes `nodex` range over nodes and what it ranges over:
+    -> (for-head cfg node, ('whole', root) | ('partial', why))"""
+    from ..flow import reaching_defs
+    g = ctx.g
+    if isinstance(nodex, ast.Name):
+        for h in reversed(sn.loops):
+            hn = g.nodes[h]
+            if hn.kind != 'for' or nodex.id not in stores_of(hn.ast.target):
+                continue
+            t, it = hn.ast.target, hn.ast.iter
+            if isinstance(t, ast.Name):
+                return hn, dom.classify(it, hn.id)
+            if isinstance(it, ast.Call) and call_name(it) == 'enumerate' and \
+                    it.args and isinstance(t, ast.Tuple) and \
+                    len(t.elts) == 2 and isinstance(t.elts[1], ast.Name) and \
+                    t.elts[1].id == nodex.id:
+                return hn, dom.classify(it.args[0], hn.id)
+            raise Unrecognised('loop `%s in %s`' % (short(t), short(it, 50)))
+        defs = reaching_defs(g, nodex.id, sn.id)
+        if len(defs) == 1 and defs[0][1] is not None and \
+                isinstance(defs[0][1], ast.Subscript):
+            return node_domain(ctx, dom, defs[0][0], defs[0][1])
+        raise Unrecognised('`%s` is not a loop element' % nodex.id)
+    if isinstance(nodex, ast.Subscript) and \
+            isinstance(nodex.slice, ast.Name):
+        i = nodex.slice.id
+        for h in reversed(sn.loops):
+            hn = g.nodes[h]
+            if hn.kind != 'for' or i not in stores_of(hn.ast.target):
+                continue
+            seq = dom.classify(nodex.value, hn.id)
+            it = hn.ast.iter
+            if seq[0] == 'partial':
+                return hn, seq
+            if isinstance(hn.ast.target, ast.Name) and \
+                    isinstance(it, ast.Call) and call_name(it) == 'range':
+                stop = it.args[0] if len(it.args) == 1 else \
+                    it.args[1] if len(it.args) == 2 and \
+                    isinstance(it.args[0], ast.Constant) and \
+                    it.args[0].value == 0 else None
+                o = ctx.origin(stop, hn.id) if stop is not None else None
+                if o is not None and o[0] is ctx and \
+                        isinstance(o[1], ast.Call) and \
+                        call_name(o[1]) == 'len' and o[1].args:
+                    ln = dom.classify(o[1].args[0], o[2])
+                    if ln[0] == 'partial' or ln == seq:
+                        return hn, ln
+                    raise Unrecognised('`%s`' % short(it, 50))
+                if stop is not None and o is not None:
+                    return hn, ('partial', 'the index range `%s`'
+                                % short(it, 60))
+            raise Unrecognised('loop `%s in %s`' % (short(hn.ast.target),
+                                                   short(it, 50)))
+    raise Unrecognised('`%s`' % short(nodex, 50))
+
+
+def index_domain(ctx, sn, idx, key):
+    """None when the index of the DOWN store ranges over the configured list
+    `key` (or when that cannot be told); else what it ranges over"""
+    if not isinstance(idx, ast.Name):
+        return None
+    g = ctx.g
+    for h in reversed(sn.loops):
+        hn = g.nodes[h]
+        if hn.kind != 'for' or not isinstance(hn.ast.target, ast.Name) or \
+                hn.ast.target.id != idx.id:
+            continue
+        it = hn.ast.iter
+        narrowed = None
+        while True:
+            if isinstance(it, ast.Call) and call_name(it) in FULL_ITER | \
+                    {'set'} and it.args:
+                it = it.args[0]
+            elif isinstance(it, ast.Subscript) and \
+                    isinstance(it.slice, ast.Slice):
+                if not _full_slice(it.slice):
+                    narrowed = narrowed or short(it, 50)
+                it = it.value
+            else:
+                break
+        o = ctx.origin(it, hn.id)
+        if o is None:
+            return None
+        src = o[1]
+        name = None
+        if isinstance(src, ast.Call) and \
+                isinstance(src.func, ast.Attribute) and \
+                src.func.attr == 'get' and src.args and \
+                isinstance(src.args[0], ast.Constant):
+            name = src.args[0].value
+        elif isinstance(src, ast.Subscript) and \
+                isinstance(src.slice, ast.Constant):
+            name = src.slice.value
+        elif isinstance(src, ast.Attribute):
+            name = src.attr
+        if not isinstance(name, str) or not name.startswith('blocked_'):
+            return None
+        if name != key:
+            return 'the configured %s' % name
+        if narrowed:
+            return '`%s`' % narrowed
+        return None
+    return None
+
+
+# ------------------------------------------------------------------------------
+# R18.7   a slot-count filter sees the slot counts of the node file
+#
+# _parse_nodefile(fname, cpn, smt) returns [(name, count * smt)] where count
+# is the number of lines of that host - unless `cpn` is true, then count is
+# cpn for EVERY host.  A test on element 1 of these tuples which decides
+# whether a node stays in the list (LSF: the 1-slot login/batch pseudo nodes)
+# is therefore the same for all hosts as soon as cpn is passed: it cannot
+# tell a pseudo node from a compute node.
+#
+COUNT_IDX = (1, -1)
+
+
+def _count_reads(e, elt, tainted):
+    """does expression e read the slot count of the node tuple `elt` (a name)
+    or one of the `tainted` names?"""
+    for n in walk(e, nested=True):
+        if isinstance(n, ast.Name) and n.id in tainted:
+            return True
+        if isinstance(n, ast.Subscript) and isinstance(n.value, ast.Name) and \
+                n.value.id == elt and isinstance(n.slice, ast.Constant) and \
+                n.slice.value in COUNT_IDX:
+            return True
+    return False
+
+
+class Prov:
+    """backward from the node tuples given to _get_node_list to the
+    _parse_nodefile calls they come from, noting on the way whether membership
+    was decided by a test on the slot count: hits = [(call, test | None)]"""
+
+    def __init__(self, prog, f, K):
+        self.prog, self.f, self.K = prog, f, K
+        self.g = cfg_of(f)
+        self.smap = I.stmt_node_map(self.g)
+        self.hits = []
+        self.busy = set()
+        self.replaced = []       # (comprehension, test): counts replaced by
+                                 # one value for all hosts before the test
+        self.unknown = set()     # locals computed from the node tuple by a
+                                 # function which cannot be looked into
+
+    # ----------------------------------------------------------------------
+    def callee_reads_count(self, call, elt, in_test=True):
+        """`elt` is handed to a function of the package which looks at its
+        slot count"""
+        passed = [i for i, a in enumerate(call.args)
+                  if isinstance(a, ast.Name) and a.id == elt]
+        kw = [k.arg for k in call.keywords
+              if isinstance(k.value, ast.Name) and k.value.id == elt]
+        if not passed and not kw:
+            return False
+        callee = self.prog.resolve_call(self.f, call, self.K)
+        if callee is None:
+            if isinstance(call.func, ast.Name) and call.func.id in (
+                    'len', 'str', 'repr', 'bool', 'isinstance', 'print'):
+                return False
+            if not in_test:
+                return None
+            raise Unrecognised('`%s` receives the node tuple'
+                               % short(call, 60))
+        params = [p for p, v in bind_args(callee, call).items()
+                  if isinstance(v, ast.Name) and v.id == elt]
+        for p in params:
+            if self.reads_count(callee.node, p):
+                return True
+        return False
+
+    @staticmethod
+    def reads_count(fn_node, p):
+        for n in walk(fn_node, nested=True):
+            if isinstance(n, ast.Subscript) and isinstance(n.value, ast.Name) \
+                    and n.value.id == p and (
+                        not isinstance(n.slice, ast.Constant) or
+                        n.slice.value in COUNT_IDX):
+                return True
+            if isinstance(n, ast.Assign) and isinstance(n.value, ast.Name) \
+                    and n.value.id == p and any(
+                        isinstance(t, (ast.Tuple, ast.List))
+                        for t in n.targets):
+                return True
+            if isinstance(n, (ast.For, ast.comprehension)) and \
+                    isinstance(n.iter, ast.Name) and n.iter.id == p:
+                return True
+        return False
+
+    def test_reads_count(self, e, elt, tainted, in_test=True):
+        if _count_reads(e, elt, tainted):
+            return True
+        res = False
+        for c in calls_in(e, nested=True):
+            r = self.callee_reads_count(c, elt, in_test)
+            if r:
+                return True
+            if r is None:
+                res = None
+        if in_test and names_in_expr(e) & self.unknown:
+            raise Unrecognised('`%s` tests a value an unknown function made '
+                               'of the node tuple' % short(e, 60))
+        return res
+
+    def elt_and_taint(self, target, body=None):
+        """-> (element name | None, names holding the slot count) for a loop /
+        comprehension target over node tuples; `body`: statements of the
+        loop, in which locals computed from the count (also under a test on
+        it) are followed to a fixpoint"""
+        elt, tainted = None, set()
+        if isinstance(target, ast.Name):
+            elt = target.id
+        elif isinstance(target, (ast.Tuple, ast.List)) and \
+                len(target.elts) == 2 and \
+                isinstance(target.elts[1], ast.Name):
+            tainted.add(target.elts[1].id)
+        else:
+            raise Unrecognised('loop target `%s`' % short(target))
+        if body is None:
+            return elt, tainted
+        changed = True
+        while changed:
+            changed = False
+
+            def visit(stmts, under):
+                nonlocal changed
+                for s in stmts:
+                    if isinstance(s, ast.Assign):
+                        hot = self.test_reads_count(s.value, elt, tainted,
+                                                    in_test=False)
+                        if hot is None:
+                            self.unknown |= set(
+                                nm for t in s.targets for nm in stores_of(t))
+                        hot = under or bool(hot)
+                        if not hot and elt is not None and \
+                                isinstance(s.value, ast.Name) and \
+                                s.value.id == elt and any(
+                                    isinstance(t, (ast.Tuple, ast.List)) and
+                                    len(t.elts) == 2 for t in s.targets):
+                            # name, slots = node
+                            for t in s.targets:
+                                if isinstance(t, (ast.Tuple, ast.List)) and \
+                                        len(t.elts) == 2 and \
+                                        isinstance(t.elts[1], ast.Name) and \
+                                        t.elts[1].id not in tainted:
+                                    tainted.add(t.elts[1].id)
+                                    changed = True
+                            continue
+                        if hot:
+                            for t in s.targets:
+                                for nm in stores_of(t):
+                                    if nm not in tainted and nm != elt:
+                                        tainted.add(nm)
+                                        changed = True
+                    elif isinstance(s, ast.If):
+                        u = under or self.test_reads_count(s.test, elt,
+                                                           tainted)
+                        visit(s.body, u)
+                        visit(s.orelse, u)
+                    elif isinstance(s, (ast.For, ast.While, ast.With)):
+                        visit(s.body, under)
+                        visit(getattr(s, 'orelse', []) or [], under)
+                    elif isinstance(s, ast.Try):
+                        visit(s.body, under)
+                        for h in s.handlers:
+                            visit(h.body, under)
+                        visit(s.orelse, under)
+                        visit(s.finalbody, under)
+            visit(body, False)
+        return elt, tainted
+
+    # ----------------------------------------------------------------------
+    def walk(self, e, at, filt):
+        from ..flow import reaching_defs
+        if isinstance(e, ast.Call):
+            cn = call_name(e)
+            if cn.endswith('._parse_nodefile'):
+                self.hits.append((e, filt))
+            elif (cn in FULL_ITER or cn.endswith('.copy')) and \
+                    (e.args or cn.endswith('.copy')):
+                self.walk(e.args[0] if e.args else e.func.value, at, filt)
+            elif cn in ('filter', 'itertools.filterfalse', 'filterfalse') \
+                    and len(e.args) == 2:
+                fn = e.args[0]
+                fl = filt
+                if fl is None and isinstance(fn, ast.Lambda) and \
+                        fn.args.args:
+                    p = fn.args.args[0].arg
+                    if self.test_reads_count(fn.body, p, set()):
+                        fl = fn.body
+                elif fl is None and not isinstance(fn, ast.Lambda):
+                    callee = self.prog.resolve_callable(self.f, fn, self.K)
+                    if callee is None:
+                        raise Unrecognised('filter function `%s`' % short(fn))
+                    ps = [p for p in callee.params if p not in ('self', 'cls')]
+                    if ps and self.reads_count(callee.node, ps[0]):
+                        fl = fn
+                self.walk(e.args[1], at, fl)
+            return
+        if isinstance(e, ast.Name):
+            key = (e.id, at)
+            if key in self.busy:
+                return
+            self.busy.add(key)
+            try:
+                for c in calls_in(self.f.node):
+                    if isinstance(c.func, ast.Attribute) and \
+                            isinstance(c.func.value, ast.Name) and \
+                            c.func.value.id == e.id and \
+                            c.func.attr in ('remove', 'pop', 'clear'):
+                        raise Unrecognised('nodes are taken out of `%s` in '
+                                           'place: `%s`' % (e.id, short(c, 50)))
+                for n in walk(self.f.node):
+                    if isinstance(n, ast.Delete) and any(
+                            isinstance(t, ast.Subscript) and
+                            isinstance(t.value, ast.Name) and
+                            t.value.id == e.id for t in n.targets):
+                        raise Unrecognised('nodes are deleted from `%s` in '
+                                           'place' % e.id)
+                for dn, v in reaching_defs(self.g, e.id, at):
+                    if v is None:
+                        continue
+                    if _empty_list(v):
+                        self.grown(e.id, filt)
+                    else:
+                        self.walk(v, dn.id, filt)
+            finally:
+                self.busy.discard(key)
+            return
+        if isinstance(e, ast.Subscript) and isinstance(e.slice, ast.Slice):
+            return self.walk(e.value, at, filt)
+        if isinstance(e, (ast.ListComp, ast.GeneratorExp)):
+            if len(e.generators) != 1:
+                return
+            gen = e.generators[0]
+            elt, tainted = self.elt_and_taint(gen.target)
+            fl = filt
+            for c in gen.ifs:
+                if fl is None and self.test_reads_count(c, elt, tainted):
+                    fl = c
+            before = len(self.hits)
+            self.walk(gen.iter, at, fl)
+            # the tuples are rebuilt with one count for all hosts, and a test
+            # on the count follows
+            if filt is not None and len(self.hits) > before and \
+                    isinstance(e.elt, ast.Tuple) and len(e.elt.elts) == 2 and \
+                    not names_in_expr(e.elt.elts[1]) & set(
+                        stores_of(gen.target)):
+                self.replaced.append((e.elt, filt))
+            return
+        if isinstance(e, ast.BoolOp):
+            for v in e.values:
+                self.walk(v, at, filt)
+            return
+        if isinstance(e, ast.IfExp):
+            self.walk(e.body, at, filt)
+            self.walk(e.orelse, at, filt)
+            return
+        if isinstance(e, ast.BinOp) and isinstance(e.op, ast.Add):
+            self.walk(e.left, at, filt)
+            self.walk(e.right, at, filt)
+
+    def grown(self, name, filt):
+        from ..flow import guards
+        g = self.g
+        for c in calls_in(self.f.node):
+            if not isinstance(c.func, ast.Attribute) or \
+                    not isinstance(c.func.value, ast.Name) or \
+                    c.func.value.id != name or id(c) not in self.smap:
+                continue
+            an = self.smap[id(c)]
+            if c.func.attr == 'extend' and c.args:
+                self.walk(c.args[0], an.id, filt)
+                continue
+            if c.func.attr not in ('append', 'insert') or not c.args:
+                continue
+            item = c.args[-1]
+            used = names_in_expr(item)
+            head = None
+            for h in reversed(an.loops):
+                hn = g.nodes[h]
+                if hn.kind == 'for' and used & set(stores_of(hn.ast.target)):
+                    head = hn
+                    break
+            if head is None:
+                continue                    # not an element of another list
+            elt, tainted = self.elt_and_taint(head.ast.target, head.ast.body)
+            fl = filt
+            if fl is None:
+                body = g.loop_body[head.id]
+                for tid, lab in guards(g, an.id, start=loop_start(g, head.id),
+                                       within=body):
+                    t = g.nodes[tid].ast
+                    if self.test_reads_count(t, elt, tainted):
+                        fl = t
+                        break
+            before = len(self.hits)
+            self.walk(head.ast.iter, head.id, fl)
+            if filt is not None and len(self.hits) > before and \
+                    isinstance(item, ast.Tuple) and len(item.elts) == 2 and \
+                    not names_in_expr(item.elts[1]) & (
+                        set(stores_of(head.ast.target)) | tainted):
+                self.replaced.append((item, filt))
+        for n in walk(self.f.node):
+            if isinstance(n, ast.AugAssign) and \
+                    isinstance(n.target, ast.Name) and n.target.id == name \
+                    and id(n) in self.smap:
+                self.walk(n.value, self.smap[id(n)].id, filt)
+
+
+def r18_7(prog, rep, table, rid='R18.7'):
+    rep.rule(rid, 'a resource manager which drops entries of the parsed node '
+             'file by their slot count (login/batch pseudo nodes) parses the '
+             'file without `cpn`: cpn supersedes the detected count of every '
+             'host, the test could not tell the hosts apart', minimum=5)
+    base = prog.cls(*RM)
+    seen = set()
+    n_calls = 0
+    for name, K in sorted(table.items()):
+        f = prog.find_method(K, 'init_from_scratch')
+        if f is None or f.cls is base or f.where in seen:
+            continue
+        seen.add(f.where)
+        parses = [c for c in calls_in(f.node)
+                  if call_name(c).endswith('._parse_nodefile')]
+        if not parses:
+            continue
+        rep.saw(f)
+        pv = Prov(prog, f, K)
+        try:
+            for c in calls_in(f.node):
+                if call_name(c) != 'self._get_node_list' or \
+                        id(c) not in pv.smap:
+                    continue
+                builder = prog.resolve_call(f, c, K)
+                first = None
+                if builder is not None:
+                    ps = [p for p in builder.params if p != 'self']
+                    first = ps[0] if ps else None
+                arg = kwarg(c, first, 0) if first else \
+                    (c.args[0] if c.args else None)
+                if arg is None:
+                    raise Unrecognised('`%s`' % short(c, 60))
+                pv.walk(arg, pv.smap[id(c)].id, None)
+        except Unrecognised as e:
+            raise AnalysisError('UNRECOGNISED-IDIOM %s: cannot follow the '
+                                'node tuples to _parse_nodefile (%s)'
+                                % (f.where, e))
+        filt = {id(c): t for c, t in pv.hits if t is not None}
+        for comp, t in pv.replaced:
+            rep.bad(rid, f, '%s:count-replaced' % K.name, '%s.%s replaces the '
+                    'slot counts detected in the node file by `%s` for every '
+                    'host (`%s`) and afterwards drops entries by their slot '
+                    'count (`%s`): the test is the same for all hosts, the '
+                    'pseudo nodes the batch system lists with one slot stay in '
+                    'the list and are offered as compute nodes'
+                    % (K.name, f.name, short(comp.elts[1], 40),
+                       short(comp, 60), short(t, 50)), f.loc(comp),
+                    history='host file with an unmarked 1-slot launch node '
+                    'followed by the compute nodes: the launch node is '
+                    'offered, a compute node is cut off')
+        for c in parses:
+            n_calls += 1
+            parser = prog.resolve_call(f, c, K)
+            if parser is None:
+                raise AnalysisError('%s: _parse_nodefile does not resolve for '
+                                    '%s' % (f.where, K.name))
+            ps = [p for p in parser.params if p != 'self']
+            if 'cpn' not in ps:
+                raise AnalysisError('UNRECOGNISED-IDIOM %s has no parameter '
+                                    '`cpn` (parameters %s)' % (parser.where, ps))
+            if any(isinstance(a, ast.Starred) for a in c.args) or \
+                    any(k.arg is None for k in c.keywords):
+                raise AnalysisError('UNRECOGNISED-IDIOM %s: `%s`'
+                                    % (f.where, short(c, 60)))
+            reads = any(isinstance(n, ast.Name) and n.id == 'cpn' and
+                        isinstance(n.ctx, ast.Load)
+                        for n in walk(parser.node, nested=True))
+            cpn = kwarg(c, 'cpn', ps.index('cpn'))
+            may = reads and cpn is not None and _may_be_true(prog, pv, f, cpn,
+                                                             pv.smap.get(id(c)))
+            t = filt.get(id(c))
+            rep.check(not (may and t is not None), rid, f, '%s: %s'
+                      % (K.name, 'the node tuples of `%s` are not filtered by '
+                         'their slot count' % short(c, 40) if t is None else
+                         'the slot-count filter `%s` sees the counts detected '
+                         'in the file (no cpn)' % short(t, 40)),
+                      construct='%s:cpn-vs-count-filter' % K.name,
+                      message='%s.%s drops entries of the node file by their '
+                      'slot count (`%s`) but parses the file with cpn=`%s`.  '
+                      '%s lets a true `cpn` supersede the detected slot count '
+                      'of EVERY host, so all tuples carry the same count and '
+                      'the test cannot single out the pseudo nodes the batch '
+                      'system lists with one slot (login / batch / launch '
+                      'node): they stay in the list and are offered as compute '
+                      'nodes - the reduction to requested_nodes then drops a '
+                      'real compute node instead'
+                      % (K.name, f.name, short(t, 60) if t is not None else '',
+                         short(cpn, 40) if cpn is not None else '',
+                         parser.qual), loc=f.loc(c),
+                      history='config with cores_per_node: 20, SMT 1, 2-node '
+                      'pilot, host file = launch node `lassen710` (1 line, '
+                      'name not marked login/batch) + lassen21 x 20 + lassen22 '
+                      'x 20: node_list = [lassen710, lassen21] instead of '
+                      '[lassen21, lassen22]')
+    rep.stat('parse_nodefile_calls', n_calls)
+
+
+def _may_be_true(prog, pv, f, e, at, depth=0):
+    """can the argument expression be true?  (only constants are known not to)"""
+    from ..flow import reaching_defs
+    v = prog.fold(f.module, e, f.cls)
+    if v is not UNKNOWN:
+        return bool(v)
+    if isinstance(e, ast.Name) and at is not None and depth < 8:
+        defs = reaching_defs(pv.g, e.id, at.id)
+        if defs and all(d[1] is not None for d in defs):
+            return any(_may_be_true(prog, pv, f, d[1], d[0], depth + 1)
+                       for d in defs)
+    return True
+
+
+# ------------------------------------------------------------------------------
 #
 def run(prog, rep, tier):
     rep.decided = ('every resource manager of the factory table obtains '
@@ -1017,11 +2035,18 @@ def run(prog, rep, tier):
         'change; the registry receives the filtered RMInfo and instances '
         'initialised from the registry do not filter again; _parse_nodefile '
         'draws its result from a collection keyed by node name (one entry '
-        'per distinct host whatever the order of the lines).')
+        'per distinct host whatever the order of the lines); the loops which '
+        'mark blocked cores / GPUs DOWN range over the complete '
+        'rm_info.node_list (no slice, filter, early exit or per-node skip) '
+        'after the RM built it, and over the configured blocked list of the '
+        'same kind; an RM which drops node-file entries by their slot count '
+        '(LSF pseudo nodes) does not pass `cpn` to _parse_nodefile, so the '
+        'test sees the counts detected in the file.')
     rep.undecided = ('slot counting and name syntax of node files for '
-        'arbitrary contents (LSF login/batch filtering, PBSPro vnodes); that '
-        'the batch system allocated requested+backup nodes; blocked cores '
-        '(decided under C01 R01.7).')
+        'arbitrary contents (which names / counts mark an LSF login or batch '
+        'node, PBSPro vnodes); that the batch system allocated '
+        'requested+backup nodes; position of the marking relative to the '
+        'registry write (decided under C01 R01.7).')
     rep.assumptions = [
         'the table of ResourceManager.get_manager is the complete set of '
         'resource managers (C17 checks that every shipped config names one '
@@ -1030,6 +2055,12 @@ def run(prog, rep, tier):
         'returns what was put (radical.utils, trusted)',
         'subclasses outside the package do not override _get_node_list, '
         '_filter_nodes or _init_from_scratch',
+        '_filter_nodes may keep any node of the list it is given (with backup '
+        'nodes it keeps every node which answers the ssh probe), so only a '
+        'marking loop over the complete list covers what is offered',
+        '`cpn` of _parse_nodefile supersedes the detected slot count of every '
+        'host whenever it is true (its docstring; R18.7 checks that the '
+        'parameter exists and is read)',
     ]
     table = rm_table(prog, rep)
     builders = r18_1(prog, rep, table)
@@ -1037,6 +2068,8 @@ def run(prog, rep, tier):
     r18_3(prog, rep)
     r18_4(prog, rep, table)
     r18_5(prog, rep, table)
+    rep.attempt(r18_6, prog, rep)
+    rep.attempt(r18_7, prog, rep, table)
     if tier == 'thorough':
         # sweep: any other class in the package deriving from ResourceManager
         # (not in the table) obeys R18.1 as well
@@ -1075,6 +2108,55 @@ _PNF  = ("            nodes = dict()\n"
          "            return [(node, cpn * smt) for node, cpn in nodes.items()]\n")
 _READ = ("            with ru.ru_open(fname, 'r') as fin:\n"
          "                lines = [line.strip() for line in fin]\n\n")
+
+
+_MARK = ("            for node in rm_info.node_list:\n"
+         "\n"
+         "                for idx in blocked_cores:\n"
+         "                    assert len(node['cores']) > idx\n"
+         "                    node['cores'][idx] = rpc.DOWN\n"
+         "\n"
+         "                for idx in blocked_gpus:\n"
+         "                    assert len(node['gpus']) > idx\n"
+         "                    node['gpus'][idx] = rpc.DOWN\n")
+_MARK_HEAD = "            for node in rm_info.node_list:\n\n                for idx in blocked_cores:\n"
+_MARK_BODY = ("                for idx in blocked_cores:\n"
+              "                    assert len(node['cores']) > idx\n"
+              "                    node['cores'][idx] = rpc.DOWN\n"
+              "\n"
+              "                for idx in blocked_gpus:\n"
+              "                    assert len(node['gpus']) > idx\n"
+              "                    node['gpus'][idx] = rpc.DOWN\n")
+_MARK_GPUS = ("\n"
+              "                for idx in blocked_gpus:\n"
+              "                    assert len(node['gpus']) > idx\n"
+              "                    node['gpus'][idx] = rpc.DOWN\n")
+_LSF      = _RMD + 'lsf.py'
+_LSF_PARSE = "        nodes = self._parse_nodefile(hostfile, smt=smt)\n"
+_LSF_FILT = ("        filtered = list()\n"
+             "        for node in nodes:\n"
+             "            if   'login' in node[0]: continue\n"
+             "            elif 'batch' in node[0]: continue\n"
+             "            elif smt     == node[1]: continue\n"
+             "            filtered.append(node)\n"
+             "\n"
+             "        nodes = filtered\n")
+_LSF_CPN  = ("        nodes = self._parse_nodefile(hostfile, cpn=rm_info.cores_per_node,\n"
+             "                                               smt=smt)\n")
+_LSF_HELPER = ("    def init_from_scratch(self, rm_info: RMInfo) -> RMInfo:\n\n        # LSF hostfile format:",
+               "    @staticmethod\n"
+               "    def _is_pseudo_node(node, smt) -> bool:\n"
+               "        # login / batch node: marked by name or having one physical core only\n\n"
+               "        return 'login' in node[0] or \\\n"
+               "               'batch' in node[0] or \\\n"
+               "               smt     == node[1]\n\n"
+               "    def init_from_scratch(self, rm_info: RMInfo) -> RMInfo:\n\n        # LSF hostfile format:")
+_LSF_COMP = ("        nodes = [node for node in nodes\n"
+             "                      if not self._is_pseudo_node(node, smt)]\n")
+_PBS_PARSE = ("            nodes = self._parse_nodefile(os.environ['PBS_NODEFILE'],\n"
+              "                                         cpn=rm_info.cores_per_node,\n"
+              "                                         smt=rm_info.threads_per_core)\n")
+_COB_PARSE = "            nodes    = self._parse_nodefile(nodefile, rm_info.cores_per_node)\n"
 
 
 MUTATIONS = [
@@ -1190,6 +2272,61 @@ MUTATIONS = [
          "            for node, slots in itertools.groupby(lines):\n"
          "                nodes.append((node, cpn or len(list(slots))))\n\n"
          "            return [(node, slots * smt) for node, slots in nodes]\n")]),
+    dict(name='R18.6 blocked resources marked on the first requested_nodes nodes only (seed C18-d)', rules=('R18.6',), edits=[
+        (_B, _MARK_HEAD, "            # only the nodes we are going to use need to be touched\n"
+                         "            for node in rm_info.node_list[:rm_info.requested_nodes]:\n\n                for idx in blocked_cores:\n")]),
+    dict(name='R18.6 marking loop leaves at the requested size', rules=('R18.6',), edits=[
+        (_B, _MARK_HEAD, "            for i, node in enumerate(rm_info.node_list):\n\n"
+                         "                if i >= rm_info.requested_nodes:\n                    break\n\n                for idx in blocked_cores:\n")]),
+    dict(name='R18.6 marking over a filtered copy of the list', rules=('R18.6',), edits=[
+        (_B, _MARK_HEAD, "            used = [n for n in rm_info.node_list\n"
+                         "                      if n['index'] < rm_info.requested_nodes + rm_info.backup_nodes]\n"
+                         "            for node in used:\n\n                for idx in blocked_cores:\n")]),
+    dict(name='R18.6 marking by index over range(requested_nodes)', rules=('R18.6',), edits=[
+        (_B, _MARK_HEAD, "            for i in range(rm_info.requested_nodes):\n\n"
+                         "                node = rm_info.node_list[i]\n\n                for idx in blocked_cores:\n")]),
+    dict(name='R18.6 nodes beyond the requested size skipped inside the loop', rules=('R18.6',), edits=[
+        (_B, _MARK_HEAD, "            for node in rm_info.node_list:\n\n"
+                         "                if node['index'] >= rm_info.requested_nodes:\n                    continue\n\n                for idx in blocked_cores:\n")]),
+    dict(name='R18.6 GPUs marked in a second loop over the head of the list', rules=('R18.6',), edits=[
+        (_B, _MARK_GPUS, "\n            for node in rm_info.node_list[:rm_info.requested_nodes]:\n" + _MARK_GPUS)]),
+    dict(name='R18.6 marking loop stops after the first node', rules=('R18.6',), edits=[
+        (_B, _MARK_GPUS, _MARK_GPUS + "\n                if not rm_info.backup_nodes:\n                    break\n")]),
+    dict(name='R18.6 GPU marking walks the blocked core indices', rules=('R18.6',), edits=[
+        (_B, "                for idx in blocked_gpus:\n                    assert len(node['gpus']) > idx\n",
+             "                for idx in blocked_cores:\n                    assert len(node['gpus']) > idx\n")]),
+    dict(name='R18.6 blocked cores written FREE', rules=('R18.6',), edits=[
+        (_B, "                    node['cores'][idx] = rpc.DOWN\n", "                    node['cores'][idx] = rpc.FREE\n")]),
+    dict(name='R18.7 LSF hands cores_per_node to the host file parser (seed C18-c)', rules=('R18.7',), edits=[
+        (_LSF, _LSF_PARSE, _LSF_CPN)]),
+    dict(name='R18.7 LSF passes cores_per_node positionally', rules=('R18.7',), edits=[
+        (_LSF, _LSF_PARSE, "        nodes = self._parse_nodefile(hostfile, rm_info.cores_per_node, smt)\n")]),
+    dict(name='R18.7 LSF passes cpn through a local with a default', rules=('R18.7',), edits=[
+        (_LSF, _LSF_PARSE, "        cpn   = rm_info.cores_per_node or 0\n        nodes = self._parse_nodefile(hostfile, cpn, smt=smt)\n")]),
+    dict(name='R18.7 cpn passed, pseudo nodes filtered by a helper in a comprehension', rules=('R18.7',), edits=[
+        (_LSF, _LSF_PARSE, _LSF_CPN),
+        (_LSF, _LSF_HELPER[0], _LSF_HELPER[1]),
+        (_LSF, _LSF_FILT, _LSF_COMP)]),
+    dict(name='R18.7 cpn passed, slot count unpacked into a local before the test', rules=('R18.7',), edits=[
+        (_LSF, _LSF_PARSE, _LSF_CPN),
+        (_LSF, _LSF_FILT, "        filtered = list()\n        for node in nodes:\n            name, slots = node\n"
+                          "            pseudo = 'login' in name or 'batch' in name or slots == smt\n"
+                          "            if not pseudo:\n                filtered.append(node)\n\n        nodes = filtered\n")]),
+    dict(name='R18.7 LSF overwrites the detected counts itself before the filter', rules=('R18.7',), edits=[
+        (_LSF, _LSF_PARSE, _LSF_PARSE +
+         "        if rm_info.cores_per_node:\n"
+         "            nodes = [(name, rm_info.cores_per_node * smt) for name, _ in nodes]\n")]),
+    dict(name='R18.7 LSF overwrites the detected counts in a loop before the filter', rules=('R18.7',), edits=[
+        (_LSF, _LSF_PARSE, _LSF_PARSE +
+         "        if rm_info.cores_per_node:\n"
+         "            fixed = list()\n"
+         "            for name, _ in nodes:\n"
+         "                fixed.append((name, rm_info.cores_per_node * smt))\n"
+         "            nodes = fixed\n")]),
+    dict(name='R18.7 PBSPro drops one-slot entries of a node file parsed with cpn', rules=('R18.7',), edits=[
+        (_RMD + 'pbspro.py', _PBS_PARSE, _PBS_PARSE +
+         "            # drop service entries which are listed with one slot\n"
+         "            nodes = [n for n in nodes if n[1] > (rm_info.threads_per_core or 1)]\n")]),
 ]
 
 SILENT = [
@@ -1255,4 +2392,57 @@ SILENT = [
         (_B, "                    if node in nodes: nodes[node] += 1\n                    else            : nodes[node]  = 1\n", "                    nodes[node] = nodes.get(node, 0) + 1\n"),
         (_B, "            return [(node, cpn * smt) for node, cpn in nodes.items()]\n",
              "            result = list()\n            for node, cnt in nodes.items():\n                result.append((node, cnt * smt))\n            return result\n")]),
+    dict(name='marking loop over a local alias of the list', edits=[
+        (_B, _MARK_HEAD, "            node_list = rm_info.node_list\n            for node in node_list:\n\n                for idx in blocked_cores:\n")]),
+    dict(name='marking loop with enumerate and a copy of the list', edits=[
+        (_B, _MARK_HEAD, "            for _, node in enumerate(list(rm_info.node_list)):\n\n                for idx in blocked_cores:\n")]),
+    dict(name='marking loop by index over the whole list', edits=[
+        (_B, _MARK_HEAD, "            n_nodes = len(rm_info.node_list)\n            for i in range(n_nodes):\n\n"
+                         "                node = rm_info.node_list[i]\n\n                for idx in blocked_cores:\n")]),
+    dict(name='marking extracted into a static helper', edits=[
+        (_B, "            rm_info.cores_per_node -= len(blocked_cores)\n            rm_info.gpus_per_node  -= len(blocked_gpus)\n\n" + _MARK,
+             "            self._block_resources(rm_info, blocked_cores, blocked_gpus)\n"),
+        (_B, "    # --------------------------------------------------------------------------\n    #\n    def _filter_nodes(self, rm_info: RMInfo) -> None:\n",
+             "    # --------------------------------------------------------------------------\n    #\n    @staticmethod\n"
+             "    def _block_resources(info, b_cores, b_gpus) -> None:\n\n"
+             "        info.cores_per_node -= len(b_cores)\n        info.gpus_per_node  -= len(b_gpus)\n\n"
+             "        for n in info.node_list:\n            for i in b_cores:\n                assert len(n['cores']) > i\n                n['cores'][i] = rpc.DOWN\n"
+             "            for i in b_gpus:\n                assert len(n['gpus']) > i\n                n['gpus'][i] = rpc.DOWN\n\n\n"
+             "    # --------------------------------------------------------------------------\n    #\n    def _filter_nodes(self, rm_info: RMInfo) -> None:\n")]),
+    dict(name='marking of one node extracted into a helper which gets the node', edits=[
+        (_B, _MARK, "            for node in rm_info.node_list:\n                self._block_node(node, blocked_cores, blocked_gpus)\n"),
+        (_B, "    # --------------------------------------------------------------------------\n    #\n    def _filter_nodes(self, rm_info: RMInfo) -> None:\n",
+             "    # --------------------------------------------------------------------------\n    #\n"
+             "    def _block_node(self, node, b_cores, b_gpus) -> None:\n\n"
+             "        for i in b_cores:\n            assert len(node['cores']) > i\n            node['cores'][i] = rpc.DOWN\n\n"
+             "        for i in b_gpus:\n            assert len(node['gpus']) > i\n            node['gpus'][i] = rpc.DOWN\n\n\n"
+             "    # --------------------------------------------------------------------------\n    #\n    def _filter_nodes(self, rm_info: RMInfo) -> None:\n")]),
+    dict(name='marking loops nested the other way round, vectors through locals', edits=[
+        (_B, _MARK, "            for idx in blocked_cores:\n                for node in rm_info.node_list:\n"
+                    "                    assert len(node['cores']) > idx\n                    node['cores'][idx] = rpc.DOWN\n\n"
+                    "            for node in rm_info.node_list:\n                gpus = node['gpus']\n                for idx in blocked_gpus:\n"
+                    "                    assert len(gpus) > idx\n                    gpus[idx] = rpc.DOWN\n")]),
+    dict(name='marking loop skips the GPU part when no GPU is blocked', edits=[
+        (_B, _MARK_GPUS, "\n                if not blocked_gpus:\n                    continue\n" + _MARK_GPUS)]),
+    dict(name='LSF passes cpn=0 explicitly', edits=[
+        (_LSF, _LSF_PARSE, "        nodes = self._parse_nodefile(hostfile, cpn=0, smt=smt)\n")]),
+    dict(name='LSF pseudo-node filter as a helper used in a comprehension', edits=[
+        (_LSF, _LSF_HELPER[0], _LSF_HELPER[1]),
+        (_LSF, _LSF_FILT, _LSF_COMP)]),
+    dict(name='LSF pseudo-node filter with the tuple unpacked and a positive test', edits=[
+        (_LSF, _LSF_FILT, "        filtered = list()\n        for node in nodes:\n            name, slots = node\n"
+                          "            pseudo = 'login' in name or 'batch' in name or slots == smt\n"
+                          "            if not pseudo:\n                filtered.append(node)\n\n        nodes = filtered\n")]),
+    dict(name='PBSPro hoists cpn into a local', edits=[
+        (_RMD + 'pbspro.py', _PBS_PARSE,
+         "            cpn   = rm_info.cores_per_node\n"
+         "            nodes = self._parse_nodefile(os.environ['PBS_NODEFILE'], cpn,\n"
+         "                                         rm_info.threads_per_core)\n")]),
+    dict(name='Cobalt logs entries whose slot count differs, keeps all of them', edits=[
+        (_RMD + 'cobalt.py', _COB_PARSE, _COB_PARSE +
+         "            for node in nodes:\n                if node[1] != rm_info.cores_per_node:\n"
+         "                    self._log.warn('unexpected slot count: %s', node)\n")]),
+    dict(name='Cobalt copies the parsed tuples in a comprehension', edits=[
+        (_RMD + 'cobalt.py', _COB_PARSE, _COB_PARSE +
+         "            nodes    = [(name, slots) for name, slots in nodes]\n")]),
 ]
